@@ -149,6 +149,19 @@ pub fn render_wide(_args: &[String]) -> String {
                 }
             }
         }
+        // a width field whose content is wider than the field, next to a wide element: the line is still exactly as wide as the terminal
+        if width >= 40 {
+            for (t, m) in [("{msg:8} [{wide_bar}] {pos}/{len}", "downloading"), ("{pos:>1}/{len:1} {wide_bar}|", ""), ("{msg:3}{wide_bar}", "abcdefghij")] {
+                let style = ProgressStyle::with_template(t).unwrap();
+                let f = frame(&style, Some(100000), 25000, m, "", 0, 0, width);
+                tried += 1;
+                if !(f.lines.len() == 1 && text_cols(&f.lines[0].1) == width as usize) {
+                    let got: Vec<&str> = f.lines.iter().map(|l| l.1.as_str()).collect();
+                    return format!("{{\"found\": true, \"clause\": \"C13 a line with wide_bar is exactly as wide as the terminal, also next to a field whose content overflows its width\", \"tried\": {}, \"input\": {{\"template\": {}, \"msg\": {}, \"width\": {}, \"rendered\": {}}}, \"rerun\": \"replay render_wide\"}}",
+                        tried, crate::js(t), crate::js(m), width, crate::jlist(&got));
+                }
+            }
+        }
         // a wide element on one line of a multi-line template: every template line still gives one frame line
         for (t, wide_at) in [("{wide_bar}\n{pos}/{len}", 0usize), ("{pos}/{len}\n{wide_bar}", 1), ("{wide_msg}\n{pos}", 0), ("a\n{wide_bar}\nb", 1)] {
             let style = ProgressStyle::with_template(t).unwrap();
@@ -283,6 +296,25 @@ pub fn bar_cells(_args: &[String]) -> String {
                     return format!("{{\"found\": true, \"clause\": {}, \"tried\": {}, \"input\": {{\"template\": {}, \"progress_chars\": \"#12345678-\", \"pos\": {}, \"len\": {}, \"rendered\": {}}}, \"rerun\": \"replay bar_cells\"}}",
                         crate::js(&format!("C13 {}", b)), tried, crate::js(&t), pos, len, crate::js(&line));
                 }
+            }
+        }
+    }
+    // two-column clusters: floor(N/2) cells of two columns each, also when the bar is full
+    for n in [2usize, 3, 10, 11] {
+        let t = format!("{{bar:{}}}", n);
+        let style = ProgressStyle::with_template(&t).unwrap().progress_chars("\u{ff03}\u{ff1e}\u{ff0d}");
+        for (pos, len) in [(0u64, 4u64), (1, 4), (2, 4), (3, 4), (4, 4), (5, 4), (0, 0)] {
+            let f = frame(&style, Some(len), pos, "", "", 0, 0, 80);
+            tried += 1;
+            // an odd field width is padded with one blank after the cells
+            let line = f.lines.get(0).map(|l| l.1.trim_end().to_string()).unwrap_or_default();
+            let cells = n / 2;
+            let filled = line.chars().take_while(|c| *c == '\u{ff03}').count();
+            let bad = if line.chars().count() != cells { Some("the bar occupies floor(N/c) cells of c columns each") }
+                else if (filled == cells) != (pos >= len) { Some("filled == cells exactly when position >= length") } else { None };
+            if let Some(b) = bad {
+                return format!("{{\"found\": true, \"clause\": {}, \"tried\": {}, \"input\": {{\"template\": {}, \"progress_chars\": \"two-column clusters\", \"pos\": {}, \"len\": {}, \"rendered\": {}}}, \"rerun\": \"replay bar_cells\"}}",
+                    crate::js(&format!("C13 {}", b)), tried, crate::js(&t), pos, len, crate::js(&line));
             }
         }
     }
